@@ -3045,7 +3045,12 @@ def concrete_values_from_iterable(
             return [pair.key for pair in value.kv_pairs]
     elif isinstance(value, KnownValue):
         if isinstance(value.val, (str, bytes, range)):
-            if len(value.val) < ITERATION_LIMIT:
+            try:
+                size = len(value.val)
+            except OverflowError:
+                # len() of a range with more than sys.maxsize members
+                size = ITERATION_LIMIT
+            if size < ITERATION_LIMIT:
                 return [KnownValue(c) for c in value.val]
             is_nonempty = True
     elif value is NO_RETURN_VALUE:
